@@ -71,4 +71,8 @@ theorem c17_symmetry (n o l : V3) (hn : V3.dot n n ≠ 0) :
     rw [← hNd]; ring
   · apply V3.ext' <;> c17_unfold <;> ring
 
+/-- a `TranslationLink` built from the current leader and follower positions puts the follower where it is -/
+theorem c17_translation_at (l0 f0 : V3) : translationLink l0 f0 l0 = f0 := by
+  apply V3.ext' <;> c17_unfold <;> ring
+
 end CBV.C13
